@@ -50,14 +50,45 @@ hz_harness!(hz_equiv_inv_cipher_round, 33, 40, |inp| {
 // soft_hazmat.rs (a symbolic CPUID here would put the fixsliced column mix next to the byte oracle in one query: a
 // wide-parity equivalence that does not finish); the dispatch itself is exercised with CPUID symbolic by the two round
 // harnesses above.  "Mutual inverses" follows from the oracle lemma soft_hazmat::hz_mix_inverse (additivity + single-byte basis).
-//@ harness name=hz_mix_columns prop=C17,C03 tier=quick bits=128 stub=1 est=100 variants=aes:ni+hazmat desc="hazmat::mix_columns == FIPS-197 MixColumns for all 2^128 blocks on the intrinsics arm (AESDECLAST then AESENC with zero round keys, concrete Intel-SDM instruction models)"
-hz_harness!(hz_mix_columns, 16, 40, |inp| {
-    ni_model::set_cpu(true);
-    let blk: [u8; 16] = take(inp, 0);
-    let mut b = blk.into();
-    hazmat::mix_columns(&mut b);
-    Some(b.0 == ra::mix_columns(&blk))
-});
+//@ harness name=hz_mix_columns prop=C17,C03 tier=quick bits=128 stub=1 est=40 variants=aes:ni+hazmat desc="W: hazmat::mix_columns(b) on the intrinsics arm == AESIMC(AESIMC(AESIMC(b))) for all 2^128 blocks, AESIMC an uninterpreted function shared with the oracle (the arm computes MixColumns as three InvMixColumns); InvMixColumns^3 == MixColumns is the oracle lemma fips_imc3_is_mc"
+verif_harness! {
+    name: hz_mix_columns,
+    bytes: 16,
+    unwind: 40,
+    stubs: [
+        (core::arch::x86_64::__cpuid, ni_model::m_cpuid),
+        (core::arch::x86_64::__cpuid_count, ni_model::m_cpuid_count),
+        (core::arch::x86_64::_xgetbv, ni_model::m_xgetbv),
+        (core::arch::x86_64::_mm_aesenc_si128, ni_model::m_aesenc),
+        (core::arch::x86_64::_mm_aesdeclast_si128, ni_model::m_aesdeclast),
+        (core::arch::x86_64::_mm_aesimc_si128, ni_model::m_aesimc)
+    ],
+    prop: |inp| {
+        ni_model::set_cpu(true);
+        let blk: [u8; 16] = take(inp, 0);
+        let mut b = blk.into();
+        hazmat::mix_columns(&mut b);
+        Some(b.0 == ni_model::o_imc(&ni_model::o_imc(&ni_model::o_imc(&blk))))
+    }
+}
+//@ harness name=fips_imc3_is_mc prop=C17 tier=quick bits=300 est=120 variants=aes:ni+hazmat desc="oracle lemma: InvMixColumns applied three times equals MixColumns on every state: (a) both are additive -- I(x^y) == I(x)^I(y), M(x^y) == M(x)^M(y) for all 2^128 x 2^128 pairs (I^3 is then additive as a composition) -- and (b) I(I(I(e))) == M(e) for every state e with a single non-zero byte (position and value symbolic); every state is the XOR of its single-byte components"
+verif_harness! {
+    name: fips_imc3_is_mc,
+    bytes: 34,
+    unwind: 70,
+    prop: |inp| {
+        let x: [u8; 16] = take(inp, 0);
+        let y: [u8; 16] = take(inp, 16);
+        let xy = ra::xor(&x, &y);
+        vcheck!(ra::mix_columns(&xy) == ra::xor(&ra::mix_columns(&x), &ra::mix_columns(&y)));
+        vcheck!(ra::inv_mix_columns(&xy) == ra::xor(&ra::inv_mix_columns(&x), &ra::inv_mix_columns(&y)));
+        let j = inp[32] as usize;
+        vassume!(j < 16);
+        let mut e = [0u8; 16];
+        e[j] = inp[33];
+        Some(ra::inv_mix_columns(&ra::inv_mix_columns(&ra::inv_mix_columns(&e))) == ra::mix_columns(&e))
+    }
+}
 //@ harness name=hz_inv_mix_columns prop=C17,C03 tier=quick bits=128 stub=1 est=100 variants=aes:ni+hazmat desc="hazmat::inv_mix_columns == FIPS-197 InvMixColumns for all 2^128 blocks on the intrinsics arm (AESIMC model)"
 hz_harness!(hz_inv_mix_columns, 16, 40, |inp| {
     ni_model::set_cpu(true);
